@@ -71,6 +71,16 @@ CHECKS = {
               "specification, compares them with the library's output and requires them to be equal."),
         note="ECMA-262 layout, -0, ordering and string minimality are the spec's; the nearest float64 and its shortest digits for literals with > 15 significant digits come from the strconv projection (trusted).",
         design_ref="5 (C13), 4.4"),
+    "C10": dict(
+        technique="TLA+ digit-string number semantics (normal form, ECMA-262 layout, integer syntax and ranges, Token.Int/Uint classification) with TLC-checked layout inverse and range twin; exhaustive replay of integer literals near every bound; TLC trace validation of float formatting/parsing with projection-supplied rounding facts",
+        text=("Numbers.tla decides, without arithmetic wider than a digit, whether a literal is an integer spelling, whether it fits int8..uint64 (refusing fractions, exponents and any minus "
+              "sign for unsigned types), the value and error class of Token.Int/Uint, and the ECMA-262 layout of (sign, digits, exponent). TLC proves the layout parses back to the same triple "
+              "and that the range predicate equals integer arithmetic for the small types, and emits every literal within 12/400 of each power-of-two bound with variants; the harness replays "
+              "them into all eight integer types plain, quoted and as map keys, and on the token accessors. Floats (stratified float64, float32 patterns, layout-switch neighbours) and "
+              "literals (random, rounding midpoints, overflow thresholds) are logged with all formatting paths / conversion routes; TLC checks the layout and requires the projection's facts "
+              "'round-trips', 'shortest', 'correctly rounded', 'error iff overflow'."),
+        note="Arbitrary-precision kernels (shortest digits, nearest float) are delegated to strconv/math/big in the projection and stated as such; no exhaustive 2^32 float32 sweep through TLC.",
+        design_ref="5 (C10), 7"),
     "C11": dict(
         technique="TLA+ Quote/GoDecode/Unquote with TLC-checked round-trip, per-character minimality and no-raw-character laws over all byte strings of a critical alphabet; exhaustive replay through 11 output paths x escape sets; literals replayed on unquoting paths; TLC trace validation of random Unicode",
         text=("Strings.tla defines the literal of a Go string under the escape options (each ill-formed byte becomes one U+FFFD) and JsonText independently defines the meaning of a literal. "
